@@ -178,7 +178,12 @@ ParamsCtx == << Param("p", RI(2)), Comp("w", "Real", "parameter", <<2>>, <<Mod("
 (* a parameter array W shaped like the array under test, with pairwise distinct (non-symmetric) declared elements *)
 DistinctLits(dims) == IF Len(dims) = 1 THEN Arr([j \in 1..dims[1] |-> L(2 * j + 1, 2)])
                       ELSE Arr([i \in 1..dims[1] |-> Arr([j \in 1..dims[2] |-> L(2 * ((i - 1) * dims[2] + j) + 1 + (i - 1), 2)])])
-ParamsFor(dims) == ParamsCtx \o <<Comp("W", "Real", "parameter", dims, <<Mod("value", DistinctLits(dims))>>)>>
+(* wk: what kind of variable W is - attributes may refer to parameters, but just as well to input, algebraic (or
+   state) arrays, which the expansion replaces by scalars too *)
+WKinds == {"parameter", "input", "alg"}
+ParamsFor(dims, wk) == ParamsCtx \o <<IF wk = "parameter" THEN Comp("W", "Real", "parameter", dims, <<Mod("value", DistinctLits(dims))>>)
+                                       ELSE Comp("W", "Real", IF wk = "input" THEN "input" ELSE "", dims, <<>>)>>
+LastIdx(dims) == [i \in DOMAIN dims |-> I(dims[i])]
 
 ArrMods(dims) ==       \* attribute patterns for an array with own dimensions dims: [mods, tag]
     (IF dims = <<2>> THEN
@@ -219,12 +224,14 @@ ArrEqs(dims, kd) ==
                Eq(Idx("a", <<I(dims[1]), I(dims[2])>>), Ref("x"))>>)
     \o (IF Len(dims) = 1 THEN <<ForEq("i", I(1), I(dims[1]), <<Eq(Idx("c", <<Ref("i")>>), Bin("*", Ref("i"), Idx("a", <<Ref("i")>>)))>>)>> ELSE <<>>)
 
-TopItem(dims, kd, mt) ==
+(* the scalar x has attributes that mention single ELEMENTS of the algebraic array b and of W *)
+TopItem(dims, kd, mt, wk) ==
     [fam |-> "vexp",
-     prog |-> XProg(<<>>, ParamsFor(dims) \o <<Real("x"), Comp("a", "Real", PrefixOfKind(kd), dims, mt[1]), RealA("b", dims), RealA("c", dims)>>,
+     prog |-> XProg(<<>>, ParamsFor(dims, wk) \o <<Comp("x", "Real", "", <<>>, <<Mod("start", Idx("b", LastIdx(dims))), Mod("max", Bin("+", Idx("W", LastIdx(dims)), I(1)))>>),
+                                                     Comp("a", "Real", PrefixOfKind(kd), dims, mt[1]), RealA("b", dims), RealA("c", dims)>>,
                     ArrEqs(dims, kd), IF IsStateKind(kd) THEN <<Eq(Ref("a"), Ref("b"))>> ELSE <<>>),
      states |-> IF IsStateKind(kd) THEN {"a"} ELSE {},
-     extra |-> {"top", mt[2], "kind:" \o kd, IF Len(dims) = 1 THEN "1-D" ELSE "2-D"}]
+     extra |-> {"top", mt[2], "kind:" \o kd, "attr-ref:" \o wk, IF Len(dims) = 1 THEN "1-D" ELSE "2-D"}]
 
 (* arrays inside (arrays of) components *)
 (* the class has its own parameter array g (a list-valued "value" with distinct elements) that v's attributes may mention *)
@@ -250,13 +257,25 @@ MiscItems ==
      [fam |-> "vexp", prog |-> XProg(<<>>, ParamsCtx \o <<RealA("a", <<2>>), RealA("b", <<2>>), Real("x")>>,
                                     <<Eq(Ref("b"), Call("delay", <<Ref("a"), L(1, 1)>>)), Eq(Ref("x"), Call("delay", <<Idx("a", <<I(2)>>), Rp>>))>>, <<>>),
       states |-> {}, extra |-> {"top", "delay"}],
+     [fam |-> "vexp", prog |-> XProg(<<>>, ParamsCtx \o <<RealA("A", <<2, 3>>), RealA("B", <<2, 3>>), RealA("v", <<3>>), RealA("q", <<2>>), Real("x")>>,
+                                    <<Eq(Ref("B"), Call("delay", <<Ref("A"), L(2, 1)>>)),                           \* a matrix
+                                      Eq(Ref("v"), Call("delay", <<Idx("A", <<I(1), Colon>>), Rp>>)),               \* a row (1 x 3 expression)
+                                      Eq(Ref("q"), Call("delay", <<Idx("A", <<Colon, I(2)>>), L(1, 2)>>)),          \* a column
+                                      Eq(Ref("x"), Call("delay", <<Idx("A", <<I(2), I(3)>>), Rp>>))>>, <<>>),
+      states |-> {}, extra |-> {"top", "delay", "delay-2-D"}],
+     [fam |-> "vexp", prog |-> XProg(<<>>, ParamsCtx \o <<RealA("A", <<3, 2>>), RealA("B", <<3, 2>>), Real("x")>>,
+                                    <<Eq(Ref("B"), Call("delay", <<Bin("*", I(2), Ref("A")), Rp>>))>>, <<>>),
+      states |-> {}, extra |-> {"top", "delay", "delay-2-D"}],
      [fam |-> "vexp", prog |-> XProg(<<>>, ParamsCtx \o <<Comp("o1", "Real", "output", <<2>>, <<>>), Real("x"), Comp("o2", "Real", "output", <<>>, <<>>),
                                                           Comp("o3", "Real", "output", <<2, 2>>, <<>>), RealA("a", <<2>>)>>,
                                     <<Eq(Ref("o1"), Ref("a")), Eq(Der(Ref("o2")), Ref("x"))>>, <<>>),
       states |-> {"o2"}, extra |-> {"top", "outputs"}]}
 
 Items(tier) ==
-    {TopItem(d, kd, mt) : d \in Shapes(tier), kd \in Kinds, mt \in UNION {ArrMods(dd) : dd \in Shapes(tier)}}
+    UNION {{TopItem(d, kd, mt, "parameter") : kd \in Kinds, mt \in ArrMods(d)} : d \in Shapes(tier)}
+    (* the attribute patterns that mention W, with W an input / algebraic array *)
+    \cup UNION {{TopItem(d, kd, mt, wk) : kd \in {"alg", "state", "output"}, wk \in WKinds \ {"parameter"},
+                                          mt \in {m \in ArrMods(d) : m[2] \in {"attr-array-mx", "attr-matrix-mx"}}} : d \in Shapes(tier)}
     (* arrays inside component instances: scalar instance and arrays of instances, square and NON-square nesting (sub[2].v[3], sub[3].v[2]);
        a 2-D array inside an array of instances would need 3 dimensions: MX cannot hold it (NotImplementedError without expansion) *)
     \cup UNION {{NestedItem(od[1], od[2], mt, st) : mt \in NestedMods(od[2]), st \in BOOLEAN} :
